@@ -29,6 +29,9 @@ pub enum Call {
     SubCycle { k: u8, psub: bool, variant: u8 },
     /// subscribe_ls on the own namespace, create a key, expect a list, unsubscribe_ls (0/1), create another
     LsSubCycle { variant: u8 },
+    /// fire-and-forget subscribe (kind 0: subscribe_async, 1: psubscribe_async, 2: subscribe_ls_async),
+    /// then unsubscribe (variant 0: awaited, 1: async)
+    AsyncSubCycle { k: u8, kind: u8, variant: u8 },
     PublishToSelf { k: u8 },
     Lock { k: u8 },
     /// increment the counter shared by all tasks through the library's `update`
@@ -79,7 +82,7 @@ pub fn gen_plan(rng: &mut Rng, focus: &str, thorough: bool) -> ClientPlan {
             let mut calls = vec![];
             for _ in 0..n {
                 let k = rng.below(3) as u8;
-                let roll = if focus == "C02" && rng.chance(2, 3) { 22 } else { rng.below(26) };
+                let roll = if focus == "C02" && rng.chance(2, 3) { 22 } else { rng.below(28) };
                 let c = match roll {
                     0..=4 => Call::Set { k },
                     5 => Call::SetAsync { k },
@@ -96,6 +99,7 @@ pub fn gen_plan(rng: &mut Rng, focus: &str, thorough: bool) -> ClientPlan {
                     21 => Call::Lock { k },
                     22..=23 => Call::UpdateShared,
                     24 => Call::SPubShared,
+                    26..=27 => Call::AsyncSubCycle { k, kind: rng.below(3) as u8, variant: rng.below(2) as u8 },
                     _ => Call::Sleep { us: rng.range(1, 20_000) },
                 };
                 calls.push(c);
@@ -344,6 +348,38 @@ async fn run_task(
                 ishared.unsub_checks.lock().expect("u").push((wb.client_id().to_owned(), tid, false, seq));
                 let _ = call!(&log, "set", wb.set_generic(kk.clone(), v2.clone()));
                 expect.insert(kk, (v2, 0));
+            }
+            Call::AsyncSubCycle { k, kind, variant } => {
+                let kk = key(k);
+                let parent = format!("{ns}/ls");
+                let tid = match kind {
+                    0 => call!(&log, "subscribe_async", wb.subscribe_async(kk.clone(), false, true)),
+                    1 => call!(&log, "psubscribe_async", wb.psubscribe_async(kk.clone(), false, true, None)),
+                    _ => call!(&log, "subscribe_ls_async", wb.subscribe_ls_async(Some(parent.clone()))),
+                };
+                let Some(Ok(tid)) = tid else { continue };
+                // an awaited call is answered after the fire-and-forget one was processed
+                let _ = call!(&log, "get", wb.get_generic(kk.clone()));
+                let is_ls = kind >= 2;
+                if variant == 0 {
+                    let r = if is_ls {
+                        call!(&log, "unsubscribe_ls", wb.unsubscribe_ls(tid))
+                    } else {
+                        call!(&log, "unsubscribe", wb.unsubscribe(tid))
+                    };
+                    if let Some(Err(e)) = r {
+                        bad(&log, "C20", "a call resolved with an answer that is not the server's answer to it", format!("unsubscribe of the fire-and-forget subscription {tid}: {e}"));
+                    }
+                } else {
+                    if is_ls {
+                        let _ = call!(&log, "unsubscribe_ls_async", wb.unsubscribe_ls_async(tid));
+                    } else {
+                        let _ = call!(&log, "unsubscribe_async", wb.unsubscribe_async(tid));
+                    }
+                    let _ = call!(&log, "get", wb.get_generic(kk.clone()));
+                }
+                let seq = simcore::ctx::seq();
+                ishared.unsub_checks.lock().expect("u").push((wb.client_id().to_owned(), tid, is_ls, seq));
             }
             Call::LsSubCycle { variant } => {
                 let parent = format!("{ns}/ls");
